@@ -5,7 +5,9 @@ import (
 )
 
 func mergeDocs(doc, patch *Document) error {
-	merged, err := merge(doc.Data, patch.Data)
+	// A patch may be applied to several documents, and merge keeps or
+	// modifies parts of its source: give every target its own copy.
+	merged, err := merge(doc.Data, copyTree(patch.Data))
 	if err != nil {
 		return err
 	}
@@ -201,7 +203,8 @@ func mergeListMatch(obj []any, m any, v map[string]any) ([]any, error) {
 		if match(v2, m) {
 			found = true
 
-			v2, err := merge(v2, val)
+			// Several entries may match: each gets its own copy of val.
+			v2, err := merge(v2, copyTree(val))
 			if err != nil {
 				return nil, err
 			}
